@@ -357,7 +357,12 @@ pub fn ustr_encode(rng: &mut StdRng, enc: &str, atoms: &[String], chars: &[char]
                 "esc" => {
                     body.push(0x1b);
                     for _ in 0 .. 3 {
-                        body.push(rng.gen_range(1 ..= 255));
+                        // a colour component can have any value: also that of the escape itself or of a control code
+                        body.push(match rng.gen_range(0 .. 10) {
+                            0 | 1 => 0x1b,
+                            2 => rng.gen_range(1 ..= 0x1a),
+                            _ => rng.gen_range(1 ..= 255),
+                        });
                     }
                 }
                 _ => body.push(rng.gen_range(1 ..= 0x1a)),
@@ -384,7 +389,11 @@ pub fn ustr_encode(rng: &mut StdRng, enc: &str, atoms: &[String], chars: &[char]
                 "esc" => {
                     units.push(0x1b);
                     for _ in 0 .. 3 {
-                        units.push(rng.gen_range(0x20 ..= 0xff));
+                        units.push(match rng.gen_range(0 .. 10) {
+                            0 | 1 => 0x1b,
+                            2 => rng.gen_range(2 ..= 0x1a),
+                            _ => rng.gen_range(0x20 ..= 0xff),
+                        });
                     }
                 }
                 _ => units.push(rng.gen_range(2 ..= 0x1a)),
